@@ -426,9 +426,9 @@ def setThr (q : Q) (t : Tid) (th : Thr) : Q := { q with thr := q.thr.set t th }
 
 /-- one scheduler step. `locking` is the translator fact "push_back happens under `_cmdMutex`", `swapLocked` the fact
 "`q.swap(_cmds)` in `process()` happens under `_cmdMutex`": then lock, swap, unlock are one critical section, enabled when the mutex
-is free; otherwise the swap is the two memory steps it consists of (read the contents, then clear) at any time. A choice that is not
+is free (`wholeBatch`: the fact "one `process()` call dispatches the whole swapped batch in order, nothing is handed back"); otherwise the swap is the two memory steps it consists of (read the contents, then clear) at any time. A choice that is not
 enabled (mutex held by someone else, unknown thread) is a stutter. -/
-def step (locking swapLocked : Bool) (q : Q) : Actor → Q
+def step (locking swapLocked wholeBatch : Bool) (q : Q) : Actor → Q
   | .sender t =>
     match q.thr[t]? with
     | none => q
@@ -444,16 +444,24 @@ def step (locking swapLocked : Bool) (q : Q) : Actor → Q
         setThr { q with owner := if locking then none else q.owner } t { next := th.next + 1, pc := .idle }
   | .io =>
     if swapLocked then
-      -- process(): lock, swap, unlock are one critical section; modelled as one step enabled when the mutex is free
-      if q.owner.isNone then { q with taken := q.taken ++ q.cmds, cmds := [] } else q
+      if wholeBatch then
+        -- process(): lock, swap, unlock are one critical section, enabled when the mutex is free; the dispatch loop then walks the
+        -- WHOLE swapped batch front to back (`processDispatchesWholeBatch`), so the batch joins `taken` in one piece
+        if q.owner.isNone then { q with taken := q.taken ++ q.cmds, cmds := [] } else q
+      else
+        -- a per-wake-up budget (here: 1 command): the swap parks the batch in the local deque, the next step dispatches its first
+        -- command and hands the unprocessed tail BACK to `_cmds` with push_back (under the mutex) — behind whatever was enqueued meanwhile
+        match q.ioTmp with
+        | none => if q.owner.isNone then { q with ioTmp := some q.cmds, cmds := [] } else q
+        | some l => if q.owner.isNone then { q with taken := q.taken ++ l.take 1, cmds := q.cmds ++ l.drop 1, ioTmp := none } else q
     else
       match q.ioTmp with
       | none => { q with ioTmp := some q.cmds }
       | some l => { q with taken := q.taken ++ l, cmds := [], ioTmp := none }
 
-def run (locking swapLocked : Bool) (q : Q) : List Actor → Q
+def run (locking swapLocked wholeBatch : Bool) (q : Q) : List Actor → Q
   | [] => q
-  | a :: as => run locking swapLocked (step locking swapLocked q a) as
+  | a :: as => run locking swapLocked wholeBatch (step locking swapLocked wholeBatch q a) as
 
 def init (n : Nat) : Q := { thr := List.replicate n {} }
 
